@@ -264,6 +264,61 @@ BpOutcomes(impl, st, c) == BpStrict(impl, st, c) \cup KF31(impl, st, c)
 \* what lies outside B in the base
 Outside(st) == {e \in Proj(st) : ~IsPrefixSeq(BaseDir, e.p)}
 
+(***************************************************************************)
+(* Sub views (C11): MemFS.Sub(dir) is a view of the SAME tree rooted at    *)
+(* dir with its OWN working directory, user and umask (copied from the     *)
+(* parent when the view is made).  A call through the view on a path p     *)
+(* behaves as the parent's call on dir + p; setting the view's working     *)
+(* directory or umask never changes the parent's.  The view state is the   *)
+(* wrapper state x = [dir, vcwd, umask].                                   *)
+(***************************************************************************)
+ToBaseD(bd, vcwd, p) ==
+    IF IsEmptyPath(p) THEN p
+    ELSE [abs |-> TRUE, parts |-> bd \o LexCleanAcc(TRUE, <<>>, IF p.abs THEN p.parts ELSE vcwd \o p.parts)]
+ToVirtualD(bd, path) ==
+    IF path.abs /\ IsPrefixSeq(bd, path.parts)
+    THEN [abs |-> TRUE, parts |-> SubSeq(path.parts, Len(bd) + 1, Len(path.parts))] ELSE path
+
+SubTranslate(x, c) ==
+    [c EXCEPT !.p = IF c.op \in HOps \/ c.op = "getwd" THEN @ ELSE ToBaseD(x.dir, x.vcwd, @),
+              !.q = IF c.op \in {"rename", "link"} THEN ToBaseD(x.dir, x.vcwd, @) ELSE @]
+
+SubX(o, x) == [res |-> o.res, st |-> o.st, kf |-> o.kf, inv |-> o.inv, skip |-> o.skip, cons |-> <<>>, x |-> x]
+
+SubOutcomes(impl, st, c, x) ==
+    IF c.op = "setumask" THEN {SubX(Strict(Ok(st)), [x EXCEPT !.umask = And(c.perm, 511)])}
+    ELSE IF c.op = "getwd" THEN {SubX(Strict(Ret([R0 EXCEPT !.path = [abs |-> TRUE, parts |-> x.vcwd]], st)), x)}
+    ELSE IF c.op = "chdir" THEN
+        {IF o.res.err = "ok"
+         THEN SubX([o EXCEPT !.st = [@ EXCEPT !.cwd = st.cwd, !.cwdn = st.cwdn]],
+                   [x EXCEPT !.vcwd = SubSeq(o.st.cwdn, Len(x.dir) + 1, Len(o.st.cwdn))])
+         ELSE SubX(o, x)
+         : o \in Outcomes(impl, st, SubTranslate(x, c))}
+    ELSE \* every other call: the parent's call on the translated path under the view's umask
+        {SubX([o EXCEPT !.st = [@ EXCEPT !.umask = st.umask], !.res.path = ToVirtualD(x.dir, @)], x)
+         : o \in Outcomes(impl, [st EXCEPT !.umask = x.umask], SubTranslate(x, c))}
+
+(* KF32  Through a Sub view, Remove, RemoveAll and Rename of the view's own root directory answer EINVAL
+         (RemoveAll after emptying it) - the view's root is treated like the root of a file system - where
+         the parent's call on dir itself would remove or move the directory. *)
+KF32(impl, st, c, x) ==
+    LET t == SubTranslate(x, c) IN
+    IF "KF32" \in OpenKF /\ c.op \in {"remove", "removeall", "rename"} /\ t.p.parts = x.dir /\ x.dir # <<>> THEN
+        IF c.op = "removeall" THEN
+            LET r == Res(st, t.p, FALSE)
+                RECURSIVE Each(_, _)
+                Each(s, todo) == IF todo = {} THEN s
+                                 ELSE LET n == CHOOSE y \in todo : TRUE IN Each(RemoveTree(s, r.id, n, 8).st, todo \ {n}) IN
+            IF r.err = "ok" /\ IsDir(st, r.id)
+            THEN {[res |-> [R0 EXCEPT !.err = "EINVAL"], st |-> Gc(Each(st, DOMAIN st.ino[r.id].ent)), kf |-> "KF32",
+                   inv |-> "ok", skip |-> FALSE, cons |-> <<>>, x |-> x]}
+            ELSE {}
+        ELSE IF c.op = "rename" /\ Res(st, t.q, FALSE).err = "ok" /\ Res(st, t.q, FALSE).id # 0 THEN {}
+        ELSE {[res |-> [R0 EXCEPT !.err = "EINVAL"], st |-> st, kf |-> "KF32", inv |-> "ok", skip |-> FALSE, cons |-> <<>>, x |-> x]}
+    ELSE {}
+
+OutsideD(bd, st) == {e \in Proj(st) : ~IsPrefixSeq(bd, e.p)}
+
 WithX(o, x) == [res |-> o.res, st |-> o.st, kf |-> o.kf, inv |-> o.inv, skip |-> o.skip, cons |-> <<>>, x |-> x]
 
 \* x is the wrapper's own state (FailFS: plan and counters); outcomes carry cons and the new x
@@ -273,6 +328,7 @@ WOutcomes(w, impl, st, c, x) ==
       [] w = "failro" -> {WithX(o, x) : o \in FailRoOutcomes(impl, st, c)}
       [] w = "failfs" -> FailOutcomes(impl, st, c, x)
       [] w = "basepath" -> {WithX(o, x) : o \in BpOutcomes(impl, st, c)}
+      [] w = "sub" -> SubOutcomes(impl, st, c, x) \cup KF32(impl, st, c, x)
 
 \* the tree (and the modification times, carried separately) never change through a read-only wrapper
 BaseUntouched(w, st, o) == w \in {"rofs", "failro"} => Proj(o.st) = Proj(st)
